@@ -5,7 +5,7 @@
    silently; `Print Assumptions` lists the axioms it depends on (none are declared by this development). *)
 From Coq Require Import NArith List Bool String.
 From Octo Require Import Base.Bytes Crypto.Prims Lib.Framed Lib.Canon Lib.WsFramed Model.Address Model.NonceGen Model.SsChunk Model.SsTcp
-  Proofs.NonceFacts Proofs.SsChunkRoundtrip Proofs.SsChunkCanon Proofs.SsChunkTamper Proofs.SsTcpSafety Proofs.SsTcpRoundtrip Proofs.WsFramedFacts Proofs.VmessTamper Proofs.SsUdpTamper.
+  Proofs.NonceFacts Proofs.SsChunkRoundtrip Proofs.SsChunkCanon Proofs.SsChunkTamper Proofs.SsTcpSafety Proofs.SsTcpRoundtrip Proofs.WsFramedFacts Proofs.VmessTamper Proofs.SsUdpTamper Proofs.VmessRespTamper.
 Import ListNotations.
 Set Printing Width 200.
 
@@ -160,6 +160,76 @@ Definition C05_ssudp_nonvacuous_tampered_xc := @UdpTamperExamples.ideal_tampered
 (* computed: every single-byte flip of four honest datagrams is refused by a tag-checking toy AEAD *)
 Definition C05_ssudp_every_flip_refused := @UdpTamperExamples.every_flip_refused.
 
+(* VMess response header (client): the decoder leaves None on ANY bytes only if both sealed blocks at the front of the input are table units under the two response-header (key, nonce) pairs of THIS session and the opened header starts with the session response byte *)
+Definition C05_vmess_resp_header_accept_is_honest := @vm_resp_header_accept_is_honest.
+(* ... with the honest server units in a table that also holds whatever was sealed under other keys (key separation): an accepted input starts with the 38 bytes the server answering THIS request sealed, and the call is the body call on the rest *)
+Definition C05_vmess_resp_header_accept_is_own := @vm_resp_header_accept_is_own.
+(* every call from None on any bytes: still waiting (fewer than 38 bytes, state and buffer untouched) or Err EAead or own genuine header then the body decoder *)
+Definition C05_vmess_resp_init_shape := @client_init_shape.
+(* any bytes that do not start with the genuine header of this session: Err EAead or still waiting, nothing released *)
+Definition C05_vmess_resp_header_tampered_refused := @vm_resp_header_tampered_refused.
+(* 38 bytes present and different from the genuine header: Err EAead *)
+Definition C05_vmess_resp_header_tampered_rejected := @vm_resp_header_tampered_rejected.
+(* general not-In form for an arbitrary table *)
+Definition C05_vmess_resp_header_tampered_refused_general := @vm_resp_header_tampered_refused_general.
+(* a genuine response to ANOTHER request (other derived keys, table holds the units of both sessions) is refused *)
+Definition C05_vmess_resp_from_other_session_refused := @vm_resp_from_other_session_refused.
+(* the client own request bytes (sealed header and body stream) fed back to it are refused *)
+Definition C05_vmess_resp_reflected_request_refused := @vm_resp_reflected_request_refused.
+(* whole response direction from (None, empty buffer) under FramedRead: ANY bytes in ANY segmentation release a prefix of what the honest server wrote for THIS session; the run ends Waiting or Failed EAead *)
+Definition C05_vmess_response_released_is_prefix := @vm_response_released_is_prefix.
+(* after a failure of the client decoder nothing more is looked at or released *)
+Definition C05_vmess_response_nothing_after_failure := @vm_response_nothing_after_failure.
+(* ... with the body keys of both directions in one table and key separation (reflection and splicing from the request direction) *)
+Definition C05_vmess_response_reflection_released_is_prefix := @vm_response_reflection_released_is_prefix.
+(* UDP command: the datagram released by the accepting call is exactly honest unit 0 behind the genuine header *)
+Definition C05_vmess_response_first_datagram_is_honest := @vm_response_first_datagram_is_honest.
+(* a header sealed under the HONEST keys but empty or with another first byte is refused with EBadAuth (no panic on the empty header) *)
+Definition C05_vmess_resp_malformed_header_refused := @vm_resp_malformed_header_refused.
+(* fewer bytes than the authentic length unit announces: wait, nothing released *)
+Definition C05_vmess_resp_truncated_header_waits := @vm_resp_truncated_header_waits.
+(* REFUTED expectation: a header of one byte (the response byte alone, or followed by anything) sealed under the honest keys IS accepted -- only the first byte is checked *)
+Definition C05_vmess_resp_NOTE_short_header_accepted := @vm_resp_short_header_refused_refuted.
+(* non-vacuity: the forge-freeness premise over the table of everything holds for the ideal opener *)
+Definition C05_vmess_resp_nonvacuous_forge_free := @VmessRespTamperExamples.ideal_resp_forge_free.
+(* non-vacuity: key separation of the concrete table *)
+Definition C05_vmess_resp_nonvacuous_separate := @VmessRespTamperExamples.ideal_resp_separate.
+(* non-vacuity: tampered_refused with all premises discharged *)
+Definition C05_vmess_resp_nonvacuous_tampered := @VmessRespTamperExamples.ideal_resp_tampered_refused.
+(* non-vacuity: other-session refusal with all premises discharged *)
+Definition C05_vmess_resp_nonvacuous_other_session := @VmessRespTamperExamples.ideal_other_session_refused.
+(* non-vacuity: the reflected request is refused, all premises discharged *)
+Definition C05_vmess_resp_nonvacuous_reflected := @VmessRespTamperExamples.ideal_reflected_request_refused_nil.
+(* non-vacuity: the whole-direction prefix theorem with all premises discharged *)
+Definition C05_vmess_resp_nonvacuous_prefix := @VmessRespTamperExamples.ideal_response_released_is_prefix.
+(* ... and the same opener releases the untampered response completely *)
+Definition C05_vmess_resp_nonvacuous_honest_all := @VmessRespTamperExamples.ideal_response_honest_all.
+(* computed: each of the 304 single-bit flips of the 38 header bytes is Err EAead *)
+Definition C05_vmess_resp_every_bit_flip_refused := @VmessRespTamperExamples.resp_header_every_bit_flip_refused.
+
+Check @C05_vmess_resp_header_accept_is_honest.
+Check @C05_vmess_resp_header_accept_is_own.
+Check @C05_vmess_resp_init_shape.
+Check @C05_vmess_resp_header_tampered_refused.
+Check @C05_vmess_resp_header_tampered_rejected.
+Check @C05_vmess_resp_header_tampered_refused_general.
+Check @C05_vmess_resp_from_other_session_refused.
+Check @C05_vmess_resp_reflected_request_refused.
+Check @C05_vmess_response_released_is_prefix.
+Check @C05_vmess_response_nothing_after_failure.
+Check @C05_vmess_response_reflection_released_is_prefix.
+Check @C05_vmess_response_first_datagram_is_honest.
+Check @C05_vmess_resp_malformed_header_refused.
+Check @C05_vmess_resp_truncated_header_waits.
+Check @C05_vmess_resp_NOTE_short_header_accepted.
+Check @C05_vmess_resp_nonvacuous_forge_free.
+Check @C05_vmess_resp_nonvacuous_separate.
+Check @C05_vmess_resp_nonvacuous_tampered.
+Check @C05_vmess_resp_nonvacuous_other_session.
+Check @C05_vmess_resp_nonvacuous_reflected.
+Check @C05_vmess_resp_nonvacuous_prefix.
+Check @C05_vmess_resp_nonvacuous_honest_all.
+Check @C05_vmess_resp_every_bit_flip_refused.
 Check @C05_ss_nonvacuous_laws.
 Check @C05_ss_nonvacuous_tamper.
 Check @C05_vmess_released_is_prefix.
@@ -300,3 +370,26 @@ Print Assumptions C05_ssudp_nonvacuous_tampered_aes.
 Print Assumptions C05_ssudp_nonvacuous_tampered_multiuser.
 Print Assumptions C05_ssudp_nonvacuous_tampered_xc.
 Print Assumptions C05_ssudp_every_flip_refused.
+Print Assumptions C05_vmess_resp_header_accept_is_honest.
+Print Assumptions C05_vmess_resp_header_accept_is_own.
+Print Assumptions C05_vmess_resp_init_shape.
+Print Assumptions C05_vmess_resp_header_tampered_refused.
+Print Assumptions C05_vmess_resp_header_tampered_rejected.
+Print Assumptions C05_vmess_resp_header_tampered_refused_general.
+Print Assumptions C05_vmess_resp_from_other_session_refused.
+Print Assumptions C05_vmess_resp_reflected_request_refused.
+Print Assumptions C05_vmess_response_released_is_prefix.
+Print Assumptions C05_vmess_response_nothing_after_failure.
+Print Assumptions C05_vmess_response_reflection_released_is_prefix.
+Print Assumptions C05_vmess_response_first_datagram_is_honest.
+Print Assumptions C05_vmess_resp_malformed_header_refused.
+Print Assumptions C05_vmess_resp_truncated_header_waits.
+Print Assumptions C05_vmess_resp_NOTE_short_header_accepted.
+Print Assumptions C05_vmess_resp_nonvacuous_forge_free.
+Print Assumptions C05_vmess_resp_nonvacuous_separate.
+Print Assumptions C05_vmess_resp_nonvacuous_tampered.
+Print Assumptions C05_vmess_resp_nonvacuous_other_session.
+Print Assumptions C05_vmess_resp_nonvacuous_reflected.
+Print Assumptions C05_vmess_resp_nonvacuous_prefix.
+Print Assumptions C05_vmess_resp_nonvacuous_honest_all.
+Print Assumptions C05_vmess_resp_every_bit_flip_refused.
